@@ -279,6 +279,14 @@ def count_errors(y: np.ndarray, home_streak_min: int,
                     continue
             temp_1[idx] = day
 
+        # the end of the season also ends the streak the team is in
+        if is_in_home_streak:
+            if home_streak_len < home_streak_min:
+                errors += (home_streak_min - home_streak_len)
+        elif is_in_away_streak:
+            if away_streak_len < away_streak_min:
+                errors += (away_streak_min - away_streak_len)
+
     # sum up the team games
     games_per_combo: Final[int] = days // (teams - 1)
     for i in range(teams):
